@@ -99,7 +99,8 @@ def directory_rules(ctx: Ctx) -> None:
         t = n.test
         if isinstance(t, ast.Compare) and isinstance(t.left, ast.Name) and t.left.id == mname:
             branches[try_ev(ctx, init, t.comparators[0])] = "\n".join(ast.unparse(s) for s in n.body)
-    a, b = branches.get(".sm", ""), branches.get(".ssc", "")
+    _nrm = lambda t: re.sub(r"__inl\d+", "__inl", t)
+    a, b = _nrm(branches.get(".sm", "")), _nrm(branches.get(".ssc", ""))
     ctx.expect("R-CLONE", init, "duplicate handling is the same for .sm and .ssc", bool(a) and a.replace("sm_path", "X_path") == b.replace("ssc_path", "X_path"), "", "the two branches differ in more than the path attribute", node=lp)
     # per entry: record the first file of a kind; a second one raises unless duplicates are ignored (then the first wins)
     from ..decide import decisions, judge_table, IGNORE
@@ -319,56 +320,32 @@ def asset_tables(ctx: Ctx) -> None:
     okm = isinstance(m, RecordVal) and m.get("match_by_extension") is True and tuple(m.get("extensions")) == audio and not m.get("presets")
     ctx.expect("R-TABLE", ("simfile.assets", ""), "MUSIC matches by audio extension only", okm, "", str(m))
     ctx.observe("R-TABLE", ("simfile.assets", ""), "DISC patterns / DISC key", "explicitly not claimed by the property")
-    # matches()
+    # matches(): a preset found in the lower-cased stem matches; otherwise the extension counts only when match_by_extension is set
     f = p.func("simfile.assets:AssetDefinition.matches")
     sn, path = f.param_names()
-    root = [n for n, bs in locals_of(f).b.items() for b in bs if b.index == (0,) and matches("os.path.splitext($p)", b.value) and ast.unparse(b.value.args[0]) == path]
-    require(len(root) == 1, f"{f.fq}: the file stem is not taken with os.path.splitext(path)")
-    from ..decide import decisions, judge_table, IGNORE
-    decs = decisions(ctx, f, opaque=lambda e: any(isinstance(x, ast.Call) for x in ast.walk(e)))
-    keys = set()
-    for d in decs:
-        keys.update(d.assign)
-    hits = [k for k in keys if "re.search" in k]
-    hk = one(hits, f"preset search condition in {f.fq}")
-    hnode = ast.parse(hk, mode="eval").body
-    m_any = match("any((re.search($p, $r.lower()) for $p in $s.presets))", hnode)
-    m_one = match("re.search($p, $r.lower())", hnode)
-    mm = m_any or m_one
-    oksym = mm is not None and ast.unparse(mm["r"]) == root[0]
-    if m_one is not None and m_any is None:
-        lp_ = [l for l in for_loops(f) if ast.unparse(l.iter) == f"{sn}.presets" and isinstance(l.target, ast.Name) and l.target.id == ast.unparse(m_one["p"])]
-        oksym = oksym and len(lp_) == 1
-    ctx.expect("R-SYM", f, "presets are searched in the lower-cased file stem", oksym, hk, f"the preset test is '{hk}'", node=f.node)
-    if m_one is not None and m_any is None:
-        for d in decs:
-            d.assign.setdefault(hk, False)  # no preset at all (loop not entered) = no preset hit
-    B = f"{sn}.match_by_extension"
-    xs = [k for k in keys if k.startswith("extensions.match(")]
-    X = xs[0] if len(xs) == 1 else f"extensions.match({path}, *{sn}.extensions)"
-    ext_form = any(isinstance(r.value, ast.Call) and "extensions.match" in ast.unparse(r.value) for r in body_walk(f.node) if isinstance(r, ast.Return) and r.value is not None)
-
-    def outcome(d):
-        k_, v = d.terminal()
-        if k_ != "return" or v is None:
-            return k_
-        c = try_ev(ctx, f, v)
-        if isinstance(c, bool):
-            return c
-        t = ast.unparse(v)
-        return "by-extension" if t in (f"bool({X})", X) else t
-
-    def spec(a):
-        if a[hk]:
-            return True
-        if not a[B]:
-            return False
-        if ext_form:
-            return "by-extension"
-        return True if a[X] else False
-
-    judge_table(ctx, "R-TABLE", f, "a preset hit matches; otherwise the extension counts only when match_by_extension is set", decs, [hk, B] + ([] if ext_form else [X]), spec, outcome)
-    ctx.expect("R-TABLE", f, "the extension test is extensions.match(path, *self.extensions)", X == f"extensions.match({path}, *{sn}.extensions)", X, X, node=f.node)
+    from .tables import Dec, judge as tjudge, sums_of as tsums, terminal_and_exit
+    from ..decide import key as ckey
+    sums = tsums(ctx, f, bool_returns=True)
+    loops = {(ast.unparse(e.target), e.line) for s_ in sums for e in s_.effects if e.kind == "for" and ast.unparse(e.value) == f"{sn}.presets"}
+    allloops = {e.line for s_ in sums for e in s_.effects if e.kind == "for"}
+    ctx.expect("R-TABLE", f, "every preset of the definition is tried", len(loops) == 1 and len(allloops) == 1, str(sorted(loops)), f"loops over the presets: {sorted(loops)} of {len(allloops)} loop(s)", node=f.node)
+    if len(loops) == 1 and len(allloops) == 1:
+        pv, line = next(iter(loops))
+        HIT = f"re.search({pv}, os.path.splitext({path})[0].lower())"
+        B, X = f"{sn}.match_by_extension", f"extensions.match({path}, *{sn}.extensions)"
+        EARLY = " [leaving the loop at this element]"
+        decs = []
+        for s_ in sums:
+            asg = dict(s_.plain_assign())
+            if not any(e.kind == "for" for e in s_.effects):
+                asg.setdefault(ckey(HIT), False)  # no preset at all = no preset hit
+            decs.append(Dec(asg, terminal_and_exit(s_), s_))
+        seen = {k for d in decs for k in d.assign}
+        searches = sorted(k for k in seen if "re.search(" in k or "re.match(" in k or "re.fullmatch(" in k)
+        ctx.expect("R-SYM", f, "presets are searched in the lower-cased file stem", searches == [ckey(HIT)], str(searches), f"the preset test is {searches}; documented: re.search(preset, <stem>.lower())", node=f.node)
+        tjudge(ctx, "R-TABLE", f, "a preset hit matches; otherwise the extension counts only when match_by_extension is set (extensions.match(path, *self.extensions))", decs, [HIT, B, X],
+               lambda a: "return True" + EARLY if a[HIT] else ("return True" if (a[B] and a[X]) else "return False"),
+               equiv={f"{X} is None": (X, False), f"bool({X})": (X, True)})
     # the Assets properties
     ci = p.cls("simfile.assets.Assets")
     n = 0
@@ -483,39 +460,48 @@ def asset_lookup(ctx: Ctx) -> None:
 
 
 def pack_banner(ctx: Ctx) -> None:
-    """C20.5"""
+    """C20.5: banner(): first an entry of the pack directory's listing with an image extension (by extension priority, then listing order);
+    otherwise <parent>/<pack name><ext> if it exists (same priority); otherwise None."""
     p = ctx.p
     f = p.func(f"{SP}.banner")
     sn = f.param_names()[0]
-    cfg = ctx.cfg(f)
-    outs = [l for l in for_loops(f) if ast.unparse(l.iter) == "extensions.IMAGE" and not any(in_body(o, l) for o in for_loops(f) if o is not l)]
-    ctx.expect("R-ORDER", f, "two stages, each ordered by extension priority (outer loop over extensions.IMAGE)", len(outs) == 2, f"{len(outs)}", f"{len(outs)} top-level loops over extensions.IMAGE", node=f.node)
-    if len(outs) != 2:
+    from .tables import Dec, judge as tjudge, sums_of as tsums, terminal_and_exit
+    from ..decide import key as ckey
+    image = tuple(p.const(EXT, "IMAGE"))
+    sums = tsums(ctx, f)
+    fors = {}
+    for s_ in sums:
+        for e in s_.effects:
+            if e.kind == "for":
+                fors[e.line] = (ast.unparse(e.target), ast.unparse(e.value), e.loops)
+    img_loops = sorted(l for l, (t, v, ls) in fors.items() if v == repr(image) and not ls)
+    list_loops = [l for l, (t, v, ls) in fors.items() if v == f"{sn}.filesystem.listdir({sn}.pack_dir)" and len(ls) == 1 and ls[0] in img_loops]
+    ctx.expect("R-ORDER", f, "two stages, each ordered by extension priority (outer loop over extensions.IMAGE); stage 1 walks the pack directory's listing", len(img_loops) == 2 and len(list_loops) == 1 and len(fors) == 3,
+               str(sorted(fors.values(), key=str)), f"loops: {sorted((v, len(ls)) for t, v, ls in fors.values())}", node=f.node)
+    if not (len(img_loops) == 2 and len(list_loops) == 1 and len(fors) == 3):
         return
-    s1, s2 = sorted(outs, key=lambda l: l.lineno)
-    ctx.expect("R-ORDER", f, "images inside the pack directory are considered before images beside it", cfg.node_for(s2) in cfg.reachable(cfg.node_for(s1)) and cfg.node_for(s1) not in cfg.reachable(cfg.node_for(s2)), "", "", node=s1)
-    t1 = s1.target.id
-    inner = [l for l in for_loops(f) if in_body(s1, l) and matches("$s.filesystem.listdir($s.pack_dir)", l.iter)]
-    ok1 = False
-    if len(inner) == 1:
-        it = inner[0].target.id
-        rr = [r for st in inner[0].body for r in walk_no_nested(st) if isinstance(r, ast.Return)]
-        if len(rr) == 1:
-            fs = [(ast.unparse(a), pol) for a, pol in facts(ctx, f, rr[0])]
-            ok1 = ast.unparse(rr[0].value) == f"{sn}._path.join({sn}.pack_dir, {it})" and (f"extensions.match({it}, {t1})", True) in fs
-    ctx.expect("R-PROV", f, "stage 1 answers with a listed entry of the pack directory that has the extension", ok1, "", "", node=s1)
-    t2 = s2.target.id
-    rr = [r for st in s2.body for r in walk_no_nested(st) if isinstance(r, ast.Return)]
-    ok2 = False
-    if len(rr) == 1 and isinstance(rr[0].value, ast.Name):
-        pb = rr[0].value.id
-        fs = [(ast.unparse(a), pol) for a, pol in facts(ctx, f, rr[0])]
-        b = locals_of(f).b.get(pb, [])
-        sp_ = [x for bs in locals_of(f).b.values() for x in bs if x.kind.startswith("unpack") and ast.unparse(x.value) == f"{sn}._path.split({sn}.pack_dir)"]
-        names = {x.index: n for n, bs in locals_of(f).b.items() for x in bs if x in sp_}
-        ok2 = (f"{sn}.filesystem.exists({pb})", True) in fs and len(b) == 1 and set(names) == {(0,), (1,)} \
-            and ast.unparse(b[0].value) == f"{sn}._path.join({names[(0,)]}, {names[(1,)]} + {t2})"
-    ctx.expect("R-PROV", f, "stage 2 answers with <parent>/<pack name><ext> only if it exists", ok2, "", "", node=s2)
-    for l in (s1, s2):
-        skips = [n for st in l.body for n in walk_no_nested(st) if isinstance(n, (ast.Continue, ast.Break))]
-        ctx.expect("R-ORDER", f, f"no extension is skipped in the stage at line order {1 if l is s1 else 2}", not skips, "", "", node=l)
+    l1 = fors[list_loops[0]][2][0]
+    l2 = [l for l in img_loops if l != l1][0]
+    t1, item, t2 = fors[l1][0], fors[list_loops[0]][0], fors[l2][0]
+    M1 = f"extensions.match({item}, {t1})"
+    PB = f"{sn}._path.join({sn}._path.split({sn}.pack_dir)[0], {sn}._path.split({sn}.pack_dir)[1] + {t2})"
+    EX = f"{sn}.filesystem.exists({PB})"
+    EARLY = " [leaving the loop at this element]"
+    decs = []
+    for s_ in sums:
+        asg = dict(s_.plain_assign())
+        if not any(e.kind == "for" and e.line == list_loops[0] for e in s_.effects):
+            asg.setdefault(ckey(M1), False)  # an empty listing has no image
+        # the two stages share nothing but the order: atoms of stage 2 are those decided inside its loop
+        decs.append(Dec(asg, terminal_and_exit(s_), s_))
+
+    def spec(a):
+        if a[M1]:
+            return f"return {sn}._path.join({sn}.pack_dir, {item})" + EARLY
+        if a[EX]:
+            return f"return {PB}" + EARLY
+        return "return None"
+
+    tjudge(ctx, "R-PROV", f, "stage 1 answers with the first listed entry of the pack directory that has the extension; stage 2 with <parent>/<pack name><ext> only if it exists; images inside the pack "
+           "directory are considered before images beside it; no extension is skipped", decs, [M1, EX], spec, equiv={f"extensions.match({item}, {t1}) is None": (M1, False)},
+           why="the answer must be an existing path; extension priority first, then listing order")
